@@ -6,5 +6,6 @@ import (
 	_ "verif/checks/c02"
 	_ "verif/checks/c05"
 	_ "verif/checks/c08"
+	_ "verif/checks/c09"
 	_ "verif/checks/c11"
 )
